@@ -126,7 +126,9 @@ func (s *Service) submitValidatorRegistrationsForAccounts(ctx context.Context,
 			relayRegistrations,
 		)
 		if err != nil {
-			return err
+			// A failure for one validator must not stop the registration of the others.
+			s.log.Error().Err(err).Msg("Failed to generate validator registrations for account; validator will not be registered")
+			continue
 		}
 		consensusRegistrations = append(consensusRegistrations, accountConsensusRegistrations...)
 	}
